@@ -1,4 +1,4 @@
-CONSTANTS Family = "str" MaxBody = 0 Alpha = {} NExt1 = 1 NExt2 = 1 MaxStr = 5 Alpha2 = {48, 49, 97, 120, 103, 59, 61, 34, 92, 32, 13, 10}
+CONSTANTS Family = "str" MaxBody = 0 Alpha = {} NExt1 = 1 NExt2 = 1 MaxStr = 4 Alpha2 = {48, 49, 97, 120, 103, 59, 61, 34, 92, 32, 13, 10}
 INIT Init
 NEXT Next
 INVARIANT Laws
